@@ -245,9 +245,11 @@ def load_known():
 
 def match_known(prop, failure, known):
     for k in known:
-        if k.get("status") != "known" or k.get("property") != prop:
+        if k.get("status") != "known" or (k.get("property") != prop and prop not in k.get("properties", [])):
             continue
         if k.get("class") and k["class"] != failure.get("class"):
+            continue
+        if k.get("class_re") and not re.search(k["class_re"], failure.get("class", "")):
             continue
         pat = k.get("match")
         if pat and not re.search(pat, failure.get("case", "") + " " + failure.get("what", "")):
